@@ -2,7 +2,7 @@
 Require Import ZArith List Bool.
 Require Import AV.BigInt.Model AV.BigInt.Facts AV.BigInt.FactsCmp AV.BigInt.FactsAdd AV.BigInt.FactsMul
                AV.BigInt.FactsBits AV.BigInt.FactsDivS AV.BigInt.FactsStr AV.BigInt.FactsScan
-               AV.BigInt.FactsShift AV.BigInt.FactsPow AV.BigInt.FactsConv AV.BigInt.FactsDiv5.
+               AV.BigInt.FactsShift AV.BigInt.FactsPow AV.BigInt.FactsConv AV.BigInt.FactsDiv5 AV.BigInt.FactsGcd AV.BigInt.FactsMod.
 Local Open Scope Z_scope.
 
 Theorem plus_exact : forall a b, norm a -> norm b ->
@@ -104,3 +104,15 @@ Theorem divide_exact : forall a b, norm a -> norm b -> val b <> 0 ->
   val q = Z.quot (val a) (val b) /\ val r = Z.rem (val a) (val b) /\ norm q /\ norm r.
 Proof. exact FactsDiv5.divide_exact. Qed.
 Print Assumptions divide_exact.
+
+(* bintMod / fiBIntMod / fiBIntRem: the remainder, with the sign of the dividend (the code's convention), through
+   all three branches (one-place Horner, xxModDouble of dword.c for 2^32 <= |b| < 2^63, bintDivide) *)
+Theorem mod_exact : forall a b, norm a -> norm b -> val b <> 0 ->
+  exists r, bintMod a b = Some r /\ val r = Z.rem (val a) (val b) /\ norm r.
+Proof. exact FactsMod.mod_exact. Qed.
+Print Assumptions mod_exact.
+
+Theorem gcd_exact : forall a b, norm a -> norm b ->
+  exists g, fiBIntGcd a b = Some g /\ val g = Z.gcd (val a) (val b) /\ norm g.
+Proof. exact FactsGcd.gcd_exact. Qed.
+Print Assumptions gcd_exact.
